@@ -16,7 +16,7 @@ PROPERTY = "C13"
 LEVEL = "other"
 LEVEL_TEXT = "for the schema-independent kinds the inclusion 'generated ⊆ read as the right token' is decided for ALL derivations: the fragment the real compiler returns for TYPE[NUMBER], TYPE[BOOLEAN], DATE and ISO8601 is parsed by the reference GBNF reader, turned into an automaton, and (after the field rule's separator language) shown to fire exactly one NUMBER / BOOLEAN / STRING token in the step model of the real tokenize (R1-R3); acceptance of the token's value is then a regular inclusion against the constraint's acceptance language for DATE/ISO8601 (calendar and clock ranges written from datetime.fromisoformat; R4) and type facts proved in C08 for NUMBER/BOOLEAN; the selection rule of compile_chain is a discharged contract over chains of 1-3 members whose kinds are symbolic (P2); CONST/ENUM literals are emit_value spellings (F2), so C04's round trip and C08's exact-match clauses give acceptance (lemma by reference, not re-proved). Per-schema behaviour (CONST/ENUM pools, chains with REQ/OPT, all routes) is bounded: exhaustive derivation for finite rules, boundary sampling filtered by grammar membership for the infinite ones"
 LEVEL_NOTE = "unbounded for the four schema-independent kinds up to the conversion step (int() digit limit is a separate, refuted, obligation); CONST/ENUM rest on C04 (bare/quoted scalar round trip, with its known findings) and C08 member contracts; chains, names and routes are bounded"
-TECHNIQUE = "regular-language inclusion between the language of the real compiled fragment (reference GBNF reader -> automaton) and the real tokenizer's step model / the constraint's acceptance language; pre/postcondition on compile_chain with symbolic member kinds (z3); bounded derivation sweep through the real reader and ConstraintChain.evaluate"
+TECHNIQUE = "pre/postconditions on the real parser (a derived KEY::<number> line is read as the NUMBER token's value; contracts/parse_scalar.py) + regular-language inclusion between the language of the real compiled fragment (reference GBNF reader -> automaton) and the real tokenizer's step model / the constraint's acceptance language; pre/postcondition on compile_chain with symbolic member kinds (z3); bounded derivation sweep through the real reader and ConstraintChain.evaluate"
 EXPLANATION = "C13: R1 NUMBER, R2 BOOLEAN, R3 DATE/ISO8601 token inclusion, R4 DATE/ISO8601 acceptance inclusion, R5 conversion totality, P2 chain selection (symbolic kinds), F2 literal spelling, B1 derivations of schema pools through reader + chain."
 ASSUMPTIONS = [
     "reference GBNF semantics (verif/gbnf.py) for what a rule derives",
